@@ -8,6 +8,7 @@ package main
 import (
 	"encoding/json"
 	"fmt"
+	"go/ast"
 	"go/parser"
 	"go/token"
 	"os"
@@ -41,6 +42,11 @@ func init() {
 	add([]string{"internal/dmap"}, "context", "vctx")
 	add([]string{"internal/dmap", "internal/cluster/routingtable", "."}, "golang.org/x/sync/errgroup", "verrgroup")
 }
+
+// files in which `go f(args)` statements (not `go func(){...}()`) become vsync.Go(...) calls with
+// the same evaluation order: by default still a goroutine, under a harness that sets vsync.Spawn a
+// queued closure that runs when the explorer delivers it (asynchronous replication as an event).
+var goRewrite = map[string]bool{"internal/dmap/put.go": true}
 
 // files of /repo replaced wholesale by files of /verif/fake
 var replaced = map[string]string{
@@ -88,13 +94,53 @@ func main() {
 			data, err := os.ReadFile(src)
 			must(err)
 			fset := token.NewFileSet()
-			f, err := parser.ParseFile(fset, src, data, parser.ImportsOnly)
+			mode := parser.ImportsOnly
+			if goRewrite[filepath.ToSlash(rel)] {
+				mode = 0
+			}
+			f, err := parser.ParseFile(fset, src, data, mode)
 			must(err)
 			type edit struct {
 				off, end int
 				s        string
 			}
 			var edits []edit
+			if goRewrite[filepath.ToSlash(rel)] {
+				text := func(n ast.Node) string {
+					return string(data[fset.Position(n.Pos()).Offset:fset.Position(n.End()).Offset])
+				}
+				found := false
+				ast.Inspect(f, func(n ast.Node) bool {
+					g, ok := n.(*ast.GoStmt)
+					if !ok {
+						return true
+					}
+					if _, lit := g.Call.Fun.(*ast.FuncLit); lit {
+						return true
+					}
+					var names, vals []string
+					for i, a := range g.Call.Args {
+						names = append(names, fmt.Sprintf("vgoA%d", i))
+						vals = append(vals, text(a))
+					}
+					s := "{ vgoF := " + text(g.Call.Fun) + "; "
+					if len(names) > 0 {
+						s += strings.Join(names, ", ") + " := " + strings.Join(vals, ", ") + "; "
+					}
+					call := strings.Join(names, ", ")
+					if g.Call.Ellipsis.IsValid() {
+						call += "..."
+					}
+					s += "vgo.Go(func() { vgoF(" + call + ") }) }"
+					edits = append(edits, edit{fset.Position(g.Pos()).Offset, fset.Position(g.End()).Offset, s})
+					found = true
+					return true
+				})
+				if found {
+					off := fset.Position(f.Name.End()).Offset
+					edits = append(edits, edit{off, off, "; import vgo " + strconv.Quote(shimBase+"vsync")})
+				}
+			}
 			for _, im := range f.Imports {
 				p, _ := strconv.Unquote(im.Path.Value)
 				if to, ok := rules[d][p]; ok {
